@@ -117,6 +117,13 @@ class PopenFuture(concurrent.futures.Future):
             with contextlib.suppress(psutil.TimeoutExpired, subprocess.TimeoutExpired):
                 parent_process.wait(timeout=0.5)
 
+            # a process that ignored SIGTERM may have spawned children during the grace period:
+            # list the tree again, so that they are force-killed too
+            with contextlib.suppress(psutil.NoSuchProcess):
+                for child in parent_process.children(recursive=True):
+                    if child not in processes:
+                        processes.append(child)
+
             # after grace period, force kill
             for process in processes:
                 if process.is_running():
